@@ -110,8 +110,12 @@ def body_gcc(ctx, case):
     Hs = [ctx.real(f"H{k}", 0, 1e4) for k in range(n)]
     for a in range(n - 1):
         d = Hs[a] - Hs[a + 1]
-        # consecutive values equal, or different by more than the vertical-segment tolerance band
-        ctx.assume(h.disj([h.close(d, 0.0, 0.0), d >= 0.5, -d >= 0.5]))
+        # consecutive values equal, or different by more than the vertical-segment tolerance band; `sliver` cases also allow
+        # differences INSIDE the 1e-3 'vertical' band (but above the 1e-6 equality tolerance)
+        opts = [h.close(d, 0.0, 0.0), d >= 0.5, -d >= 0.5]
+        if case.get("sliver"):
+            opts += [h.conj([d >= 1.0 / 4096, d <= 1.0 / 1024]), h.conj([-d >= 1.0 / 4096, -d <= 1.0 / 1024])]
+        ctx.assume(h.disj(opts))
     util = case.get("utility", False)
     col = PT.H_NET_UT.value if util else PT.H_NET.value
     data = {PT.T.value: list(Ts), col: list(Hs)}
@@ -132,7 +136,7 @@ def body_gcc(ctx, case):
         for (x0, y0), (x1, y1) in zip(pts, pts[1:]):
             dH = x0 - x1          # going down the table
             if seg.get("is_vertical"):
-                conds.append(h.close(dH, 0.0, 1e-3 + DISP))
+                conds.append(h.close(dH, 0.0, 1e-3 + DISP + 1e-6))
             else:
                 want_pos = seg["colour"] in ((1,) if not util else (2,))       # ColdS=1 / HotU=2 when dH > 0
                 conds.append(dH >= -DISP if want_pos else dH <= DISP)
@@ -195,7 +199,8 @@ def cases_cc(tier, seed):
 
 def cases_gcc(tier, seed):
     ns = (3, 4) if tier == "quick" else (3, 4, 5, 6)
-    return [{"n": n} for n in ns] + [{"n": n, "utility": True} for n in ns[:2]]
+    return ([{"n": n} for n in ns] + [{"n": n, "utility": True} for n in ns[:2]]
+            + [{"n": n, "sliver": True} for n in ns[:2]] + [{"n": 3, "sliver": True, "utility": True}])
 
 
 def cases_records(tier, seed):
@@ -216,7 +221,8 @@ FAMILIES = [
            assumptions=ASSUME, shim_modules=["OpenPinch.analysis.graph_data", "OpenPinch.utils.miscellaneous"], snap="dyadic", split_paths=40,
            validate_every=3, reach=["redundant point removed"]),
     Family(name="gcc", cases=cases_gcc, body=body_gcc, functions=FUNCS, files=FILES,
-           bounds="grand composite / utility GCC columns of 3-4 rows (thorough: 3-6): every value a z3 real in [0,1e4], consecutive values equal or >= 0.5 apart",
+           bounds="grand composite / utility GCC columns of 3-4 rows (thorough: 3-6): every value a z3 real in [0,1e4], consecutive values equal or >= 0.5 apart; "
+                  "sliver cases (3-4 rows) also allow consecutive differences in [1/4096, 1/1024], i.e. inside the 1e-3 vertical band",
            assumptions=ASSUME, shim_modules=["OpenPinch.analysis.graph_data", "OpenPinch.utils.miscellaneous"], snap="dyadic", split_paths=40,
            validate_every=3, reach=["several segments"]),
     Family(name="records", cases=cases_records, body=body_records, functions=["get_output_graph_data", "_create_graph_set"] + FUNCS,
